@@ -248,6 +248,10 @@ func verifColNames(cols []verifCol) []string {
 	return out
 }
 
+// verifNullMasks: which of the standard columns an INSERT leaves NULL (a is
+// never NULL: the generated WHERE clauses compare it).
+var verifNullMasks = [][]bool{{false, false, false, false}, {false, false, true, false}, {false, true, false, true}}
+
 func verifGenInsert(t *verifTable, n int, tag string, slen int, withCols bool) verifStmt {
 	var rows [][]interface{}
 	for i := 0; i < n; i++ {
@@ -257,7 +261,35 @@ func verifGenInsert(t *verifTable, n int, tag string, slen int, withCols bool) v
 	if withCols {
 		cols = verifColNames(t.cols)
 	}
-	st := verifInsertStmt(t.name, cols, rows)
+	stRows := rows
+	if nm := verifParam("nulls", 1); nm > 1 {
+		// NULLs: with a column list the NULL columns are left out of the statement,
+		// without one they are written as NULL values
+		mask := verifNullMasks[verifChoice(tag+"nullmask", nm)]
+		stRows = nil
+		if withCols {
+			cols = nil
+			for j, c := range t.cols {
+				if !mask[j] {
+					cols = append(cols, c.name)
+				}
+			}
+		}
+		for _, r := range rows {
+			var sr []interface{}
+			for j := range r {
+				if mask[j] {
+					r[j] = nil
+					if withCols {
+						continue
+					}
+				}
+				sr = append(sr, r[j])
+			}
+			stRows = append(stRows, sr)
+		}
+	}
+	st := verifInsertStmt(t.name, cols, stRows)
 	return verifStmt{kind: "insert", table: t.name, nrows: n,
 		run: func(rm RelationManager) error { _, err := EvaluateInsert(st, rm); return err },
 		apply: func(db *verifDB) {
@@ -405,7 +437,15 @@ func verifStmtOfKind(db *verifDB, tag string, slen int, k int) verifStmt {
 
 // verifConcreteRow: row number i with recognisable values.
 func verifConcreteRow(i int) []interface{} {
-	return []interface{}{int64(i), int64(i) * 1000003, string([]byte{byte('a' + i%26)}), i%2 == 0}
+	r := []interface{}{int64(i), int64(i) * 1000003, string([]byte{byte('a' + i%26)}), i%2 == 0}
+	// some rows carry NULLs (after rows that do not, and before others)
+	if i%4 == 1 {
+		r[2] = nil
+	}
+	if i%7 == 3 {
+		r[1], r[3] = nil, nil
+	}
+	return r
 }
 
 func verifMustRun(rm RelationManager, db *verifDB, s verifStmt) {
